@@ -44,10 +44,10 @@ THREAD_SRCS := id_manager epoch_manager epoch_guard component/epoch
 define THREAD_VARIANT
 $(B)/thread_c$(1)/repo_%.o: $(REPO)/src/thread/%.cpp $(H)/vsched_prelude.hpp $(H)/vsched_api.hpp
 	@mkdir -p $$(dir $$@)
-	$(CXX) $(COMMON) $(PRELUDE) $(REPODEF) -DDBGROUP_MAX_THREAD_NUM=$(1) -DCPP_UTILITY_SPINLOCK_RETRY_NUM=10 -I$(REPO)/include -c $$< -o $$@
+	$(CXX) $(COMMON) $(PRELUDE) $(REPODEF) -DCPP_UTILITY_VERIF -DDBGROUP_MAX_THREAD_NUM=$(1) -DCPP_UTILITY_SPINLOCK_RETRY_NUM=10 -I$(REPO)/include -c $$< -o $$@
 $(B)/thread_c$(1)/interp_thread.o: $(H)/interp_thread.cpp
 	@mkdir -p $$(dir $$@)
-	$(CXX) $(COMMON) $(PRELUDE) $(REPODEF) -DDBGROUP_MAX_THREAD_NUM=$(1) -DCPP_UTILITY_SPINLOCK_RETRY_NUM=10 -I$(REPO)/include -c $$< -o $$@
+	$(CXX) $(COMMON) $(PRELUDE) $(REPODEF) -DCPP_UTILITY_VERIF -DDBGROUP_MAX_THREAD_NUM=$(1) -DCPP_UTILITY_SPINLOCK_RETRY_NUM=10 -I$(REPO)/include -c $$< -o $$@
 $(B)/thread_c$(1)/thread_harness: $(B)/thread_c$(1)/interp_thread.o $(foreach s,$(THREAD_SRCS),$(B)/thread_c$(1)/repo_$(s).o) $(B)/common/vsched_rt.o $(B)/common/gen_thread.o $(B)/common/thread_main.o
 	$(CXX) $(STD) $(SAN) -pthread $$^ -lrapidcheck -o $$@
 endef
